@@ -13,7 +13,7 @@ RULE = ("handshakes under loss/dup/reorder of SYN, SYN-ACK, ACK and error frames
         "incompatible sizes) injected at every point incl. established connections, pairs of endpoint configurations compatible or not, up to 4 simultaneous clients. "
         "Oracle: server Connect only after a delivered ACK carrying the nonce of a SYN-ACK the server sent to that address (itself answering a delivered SYN); client "
         "Connect only after a delivered SYN-ACK echoing its SYN nonce; first data frames start at the nonces (frame id = nonce, packet id = nonce mod 2^20); refusals carry "
-        "the matching error code and echo the nonce; event grammar as C08. Non-trivial: a Connect or a refusal happened. Forged / stale handshake error frames with the client's own nonce after Connect; oracle established_not_reset.")
+        "the matching error code and echo the nonce; event grammar as C08. Non-trivial: a Connect or a refusal happened. Forged / stale handshake error frames with the client's own nonce after Connect; oracle established_not_reset. Round-7 oracle accepted_not_refused: no handshake error frame to an address within 2 s of a SYN-ACK to it (duplicated SYNs at full occupancy).")
 
 U32 = 0xFFFFFFFF
 
@@ -95,6 +95,23 @@ def oracle(stream, cid, ops, outs):
             fails.append({"oracle": "server_connect_complete", "detail": "peer %d: the ACK delivered at %d ms carries the nonce %d of the server's latest SYN-ACK (sent at %d ms) but the server reported no Connect" %
                           (p, t // 10**6, n, last_sa["time"] // 10**6), "signature": {"oracle": "server_connect_complete"}})
             break
+    # --- a handshake frame from an address the server has just accepted never earns a refusal: a repeated / duplicated SYN
+    #     from an address that holds a pending or active entry is ignored (the SYN-ACK is re-sent by the timer), whatever the
+    #     server's occupancy is by then. Judged on the wire: no handshake error frame to an address within 2 s (the pending
+    #     entry lives for 22 s, an active one until its terminal event) of a SYN-ACK to the same address, unless the
+    #     application dropped it or the server reported a terminal event for it in between (round-7 change C07-g)
+    terminals = [(t, p) for (t, tag, p, _) in sev if tag in ("D", "E")]
+    for p in set(q for (q, dr) in log if dr == "s2c"):
+        sa_t = None
+        for d in log.get((p, "s2c"), []):
+            if d["kind"] == "synack":
+                sa_t = d["time"]
+            elif d["kind"] == "hserr" and sa_t is not None and d["time"] - sa_t < 2_000 * 10**6:
+                if any(q == p and sa_t <= td <= d["time"] for (td, q) in dropped) or any(q == p and sa_t <= tt < d["time"] for (tt, q) in terminals):
+                    continue
+                fails.append({"oracle": "accepted_not_refused", "detail": "peer %d: the server sent a handshake error frame (%s) at %d ms, %d ms after sending this address a SYN-ACK (its entry is still pending or active)" %
+                              (p, "_".join(str(x) for x in d.get("f", [])), d["time"] // 10**6, (d["time"] - sa_t) // 10**6), "signature": {"oracle": "accepted_not_refused"}})
+                break
     # --- client side
     for i, evs in cev.items():
         my = [int(d["f"][2]) for d in log.get((i, "c2s"), []) if d["kind"] == "syn"]
